@@ -124,20 +124,19 @@ pub fn c14_reader_max_len() {
     r.set_max_len(max);
     let a: Result<Option<u8>, Error> = r.read();
     let declared = u32::from_be_bytes(l);
+    kani::cover!(declared == max + 1);
+    kani::cover!(declared == max && max == 4);
     if declared > max {
         assert!(matches!(a, Err(Error::InvalidLen)), "frame larger than max_len not refused");
         assert!(r.reader().pos == 4, "payload bytes consumed although the frame was refused");
         drop(a);
         let (_src, buf) = r.into_parts();
         assert!(buf.len() <= max as usize && buf.capacity() <= 4, "the reader sized its buffer for a frame above max_len");
-        kani::cover!(declared == max + 1);
         core::mem::forget(buf);
         return;
     } else {
         assert!(!matches!(a, Err(Error::InvalidLen)));
     }
-    kani::cover!(declared == max + 1);
-    kani::cover!(declared == max && max == 4);
     core::mem::forget(r);
 }
 
